@@ -29,7 +29,15 @@ def gen_objective_case(rng, ce, cons=None):
     return {"op": "opt", "problem": prob.to_json(), "cfg": ce.cfg_json(cfg), "theme": "objective", "v": v, "minimize": rng.random() < 0.5}
 
 
-def gen_cases(rng, n, with_opt=True, cons=None, limit_prob=0.0):
+def gen_cases(rng, n, with_opt=True, cons=None, limit_prob=0.0, observe=False):
+    cases = _gen_cases(rng, n, with_opt, cons, limit_prob)
+    if observe:
+        for c in cases:
+            c["observe"] = True
+    return cases
+
+
+def _gen_cases(rng, n, with_opt=True, cons=None, limit_prob=0.0):
     import corr_engine as ce
 
     cases = []
@@ -148,6 +156,11 @@ def direct_checks(c, res, kinds):
     if "stats" in kinds:
         for d in stats_laws(c, res):
             out.append(("stats", d))
+        if len(res) > 3 and isinstance(res[3], dict):
+            import observe
+
+            for d in observe.compare(dict(zip(nv.STAT_LABELS, res[2])), res[3]):
+                out.append(("stats", "statistic differs from the events observed by interposition: " + d))
     return out
 
 
@@ -184,7 +197,7 @@ def solver_sweep(ctx, cases, kinds, jit=False, tag="s"):
     return corr, viol
 
 
-def standard_run(ctx, prop, kinds, n_quick, n_thorough, regress_names=(), with_opt=True, cons=None, limit_prob=0.0, rule=""):
+def standard_run(ctx, prop, kinds, n_quick, n_thorough, regress_names=(), with_opt=True, cons=None, limit_prob=0.0, rule="", observe=False):
     nv.setup_env(jit=False)
     import regress
 
@@ -197,12 +210,12 @@ def standard_run(ctx, prop, kinds, n_quick, n_thorough, regress_names=(), with_o
         if not r["ok"]:
             violations.append({"kind": "corpus", "case": name, "detail": r["detail"]})
     n = n_quick if ctx["tier"] == "quick" else n_thorough
-    cases = gen_cases(rng, n, with_opt=with_opt, cons=cons, limit_prob=limit_prob)
+    cases = gen_cases(rng, n, with_opt=with_opt, cons=cons, limit_prob=limit_prob, observe=observe)
     d, v = solver_sweep(ctx, cases, kinds, tag=prop)
     corr += d
     violations += v
     if (not ctx["proof"]["ok"] or corr) and not violations and ctx["tier"] == "quick":
-        cases = gen_cases(rng, n * 4, with_opt=with_opt, cons=cons, limit_prob=limit_prob)
+        cases = gen_cases(rng, n * 4, with_opt=with_opt, cons=cons, limit_prob=limit_prob, observe=observe)
         d, v = solver_sweep(ctx, cases, kinds, tag=prop)
         violations += v
     report.cov["rule"] = rule or (
